@@ -133,6 +133,16 @@ def base(ctx, p):
         ctx.require(False, clause)
 
 
+@harness("C03.numeric")
+def numeric(ctx, p):
+    """Simplex ids that are integer-like numbers of other types (integral floats,
+    numpy ints/floats, bools), then automatic additions: nothing is overwritten and
+    the incidence relation stays two-way (shares C04's concrete-pool harness)."""
+    from . import c04
+
+    c04.numeric(ctx, p)
+
+
 def spec(tier, seed):
     if tier == "quick":
         shp = shapes.shapes_S_upto(3)
@@ -154,6 +164,7 @@ def spec(tier, seed):
         units.append(("C03.has", {"shape": s, "qmax": qmax}))
     for k in ("empty", "list", "hypergraph", "copy"):
         units.append(("C03.base", {"kind": k, "shape": None}))
+    units.append(("C03.numeric", {"cls": "S", "shape": None, "op": "numeric ids"}))
     return {
         "units": units,
         "caps": {"paths": 300000 if tier == "quick" else 3000000, "wall": 900 if tier == "quick" else 3000},
